@@ -161,6 +161,17 @@ RenewedOk(s, ev) == FromCache(s, ev) =>
     LET mine == StoreOfTok(stores, RespTok(ev)) IN
     mine.found => ~\E st \in KeyStores(s) : st.rcode = 0 /\ st.stored > mine.stored /\ st.stored + 50 < s.t /\ s.t + 50 < st.expire
 
+\* the same from outside (no store hook): when every client of this question is in one group, an answer served
+\* from the cache is the newest cacheable positive answer the upstream gave for it (300 ms for the refresh to land)
+SameGroupOnly(s) == \A x \in DOMAIN q : (LowerName(q[x].name) = LowerName(s.name) /\ q[x].cls = s.cls /\ q[x].typ = s.typ)
+                                          => Group(q[x].src) = Group(s.src)
+RenewedBBOk(s, ev) == (FromCache(s, ev) /\ SameGroupOnly(s)) =>
+    ~\E k \in DOMAIN upsent :
+        /\ upsent[k].name = LowerName(s.name) /\ upsent[k].cls = s.cls /\ upsent[k].typ = s.typ
+        /\ upsent[k].kind = "reply" /\ upsent[k].rcode = 0 /\ ~upsent[k].tc /\ ~upsent[k].nodata
+        /\ upsent[k].t > upsent[RespTok(ev)].t /\ upsent[k].t + 300 < s.t
+        /\ s.t + 50 < upsent[k].t + LifetimeMs(upsent[k], cfg.maxttl)
+
 \* C15: a query answered REFUSED by the limiter (the rules would have forwarded it) never reached an upstream
 RefusedNotForwarded(s, ev) ==
     (cfg.limit > 0 /\ Supported(s) /\ ev.rcode = 5 /\ Dec(LowerName(s.name)).kind = "forward") =>
@@ -199,7 +210,8 @@ ClRecv == /\ IsEvent("cl.recv")
                                \cup (IF SizeOk(s, ev) THEN {} ELSE {"Inv_C09_ListenerLimit"})
                                \cup (IF TruncOk(s, ev) THEN {} ELSE {"Inv_C09_TcIff"})
                                \cup (IF NoDelayOk(s, ev) THEN {} ELSE {"Inv_C19_NoDelay"})
-                               \cup (IF RenewedOk(s, ev) THEN {} ELSE {"Inv_C19_Renewed"})))
+                               \cup (IF RenewedOk(s, ev) THEN {} ELSE {"Inv_C19_Renewed"})
+                               \cup (IF RenewedBBOk(s, ev) THEN {} ELSE {"Inv_C19_RenewedRelayed"})))
              /\ answered' = answered \cup {ev.qn}
              /\ seen' = IF ev.ok /\ RespTok(ev) # 0 /\ RespTok(ev) \notin DOMAIN seen THEN With(seen, RespTok(ev), [shape |-> Shape(ev), mark |-> Group(s.src)]) ELSE seen
           /\ UNCHANGED <<cfg, q, upsent, upq, stores, pf, fwd, outst, ladm>>
